@@ -25,6 +25,8 @@ BASES = {
     "listmodel": (arr({"$ref": REF + "Sub"}), [{"n": 2}], None), "any": ({}, "anything", None),
     # an explicitly typed object composed by allOf of two components: nullability written on the TYPE must still reach the property
     "objallof": ({"type": "object", "allOf": [{"$ref": REF + "Sub"}, {"$ref": REF + "Opt"}]}, {"n": 1, "w": "x"}, None),
+    # the same composition WITHOUT an explicit type (3.0 `nullable: true` next to a two-member allOf)
+    "bareallof": ({"allOf": [{"$ref": REF + "Sub"}, {"type": "object", "properties": {"nick": {"type": "string"}}}]}, {"n": 1, "nick": "x"}, None),
 }
 NOTATIONS = ["plain", "n30", "n31", "anyof", "oneof", "enumnull"]
 
@@ -101,6 +103,9 @@ def docs():
                     if dflt is not None and "rd" in props and props["rd"] is not sch:
                         plist.append(OPS.P("od", loc, props["rd"], False))        # optional WITH a schema default: an explicit UNSET still suppresses it
                     params_paths[f"/p/{loc}/{kind}"] = {"get": OPS.op(f"p_{loc}_{kind}", plist)}
+                    if loc == "query" and kind in ("str", "int", "date", "enumstr"):
+                        # EVERY parameter of the operation required: a nullable one given None is still 'null', not 'present'
+                        params_paths[f"/pr/{loc}/{kind}"] = {"get": OPS.op(f"pr_{loc}_{kind}", [OPS.P("rq", loc, sch, True), OPS.P("rz", loc, {"type": "integer"}, True)])}
         d = {"openapi": version, "info": {"title": "t", "version": "1"}, "paths": params_paths, "components": {"schemas": S}}
         out.append((notation + "+literal", d, expect, {"literal_enums": True}) if dup else (notation, d, expect, None))
     return out
@@ -182,6 +187,15 @@ def work(args):
                 # only the required argument given: the optional one must not be transmitted
                 ops.append({"op": "call", "module": module, "variant": "sync_detailed", "kwargs": {"rq": OPS.to_marker(val)}, "response": {"status": 508}})
                 meta.append(("call_omit", erec, val, None))
+                if not any(p["py"] == "op" for p in erec["params"]):
+                    # required-only operation: (value), and - when the parameter is nullable - None, which must not be transmitted
+                    ops[-1]["kwargs"]["rz"] = 5
+                    rqp = next(p for p in erec["params"] if p["py"] == "rq")
+                    if admits_none_str(rqp["type_string"]):
+                        ops.append({"op": "call", "module": module, "variant": "sync_detailed", "kwargs": {"rq": None, "rz": 5}, "response": {"status": 508}})
+                        meta.append(("call_none", erec, val, None))
+                    out["eps"].append(erec)
+                    continue
                 ops.append({"op": "call", "module": module, "variant": "sync_detailed", "kwargs": {"rq": OPS.to_marker(val), "op": OPS.to_marker(val)}, "response": {"status": 508}})
                 meta.append(("call_both", erec, val, None))
                 has_od = any(p["py"] == "od" for p in erec["params"])
@@ -370,7 +384,7 @@ def run(run, tier, replay=None):
                 if sp["name"] == "op" and ((not sp["has_default"]) or (sp["default"] or {}).get("t") != "unset"):
                     run.violation("oracle", {"label": r["label"], "doc": r["doc"], "cfg": r.get("cfg"), "op": erec["op"], "param": sp, "note": "optional parameter does not default to UNSET"})
             loc = erec["params"][0]["loc"] if erec["params"] else None
-            for which in ("call_omit", "call_both", "call_unset"):
+            for which in ("call_omit", "call_both", "call_unset", "call_none"):
                 call = erec.get(which)
                 if not call:
                     continue
@@ -383,12 +397,17 @@ def run(run, tier, replay=None):
                         # httpx refuses the raw non-string value: C03's findings cookie_non_string / header_non_string / header_none; nothing is observable here
                         run.extra["parameter_calls_unobservable"] = run.extra.get("parameter_calls_unobservable", 0) + 1
                         continue
-                    run.violation("oracle", {"label": r["label"], "doc": r["doc"], "cfg": r.get("cfg"), "op": erec["op"], "impl": call, "note": "calling with the optional argument %s raised" % {"call_omit": "omitted", "call_both": "given", "call_unset": "explicitly UNSET"}[which]})
+                    run.violation("oracle", {"label": r["label"], "doc": r["doc"], "cfg": r.get("cfg"), "op": erec["op"], "impl": call, "note": "calling with the optional argument %s raised" % {"call_omit": "omitted", "call_both": "given", "call_unset": "explicitly UNSET", "call_none": "None"}[which]})
                     continue
                 req = (call.get("requests") or [{}])[0]
                 names = {"query": [k for k, _ in req.get("query", [])], "header": [k.lower() for k, _ in req.get("headers", [])],
                          "cookie": [c.split("=")[0].strip() for k, v in req.get("headers", []) if k.lower() == "cookie" for c in v.split(";")]}[loc]
                 present = ("op" in names)
+                if which == "call_none":
+                    if "rq" in names:
+                        run.violation("oracle", {"label": r["label"], "doc": r["doc"], "cfg": r.get("cfg"), "op": erec["op"], "request": req,
+                                                 "note": "a nullable query parameter given None was transmitted (as an empty value it is indistinguishable from the present value '')"})
+                    continue
                 if which == "call_unset" and (present or "od" in names):
                     run.violation("oracle", {"label": r["label"], "doc": r["doc"], "cfg": r.get("cfg"), "op": erec["op"], "request": req, "note": "an optional parameter passed as UNSET was transmitted"})
                 if which == "call_omit" and present:
